@@ -1,7 +1,8 @@
 // target: src/heads.rs
-// labels: heads.insert.* heads.encode.* heads.decode.* heads.merge.*
+// labels: heads.insert.* heads.encode.* heads.decode.* heads.merge.* heads.has_news_for.*
 // tier: quick
-// bound: head sets with up to 3 of 4 authors, timestamps in {0, 1, 2, u64::MAX}, every size limit 0..=140 (exhaustive)
+// bound: head sets with up to 3 of 4 authors, timestamps in {0, 1, 2, u64::MAX}, every size limit 0..=140 (exhaustive); has_news_for and merge
+// over every pair of such head sets (369 x 369)
 // Concrete small-domain check (NOT a proof) of the parts of src/heads.rs that neither Verus nor Kani could take:
 // `AuthorHeads::insert` (BTreeMap entry API; its max-merge contract is ASSUMED by units U-heads-merge / U-heads-store) and
 // `AuthorHeads::encode` (BTreeSet::into_iter().rev() + postcard). Exhaustive over all head sets with up to 3 authors out of
@@ -104,6 +105,27 @@ mod verif_rp_heads_encode {
                 Err(_) => panic!("WITNESS encode(Some(0)) of {m:?} panics (debug_assert: encoded length 1 > limit 0)"),
                 Ok(Ok(enc)) => assert!(enc.len() <= 0, "WITNESS encode(Some(0)) of {m:?} returns {} byte(s) {enc:02x?}", enc.len()),
                 Ok(Err(_)) => {}
+            }
+        }
+    }
+
+    /// has_news_for counts the authors for which we hold something strictly newer than the other side, or that the other side does not know;
+    /// merge is the per-author maximum
+    #[test]
+    fn has_news_for_and_merge_match_definition() {
+        let all = all_heads();
+        for ours in &all {
+            for theirs in &all {
+                let a = AuthorHeads { heads: ours.clone() };
+                let b = AuthorHeads { heads: theirs.clone() };
+                let want = ours.iter().filter(|(author, t)| match theirs.get(*author) { None => true, Some(o) => *t > o }).count() as u64;
+                let got = a.has_news_for(&b).map(|n| n.get()).unwrap_or(0);
+                assert_eq!(got, want, "WITNESS has_news_for: ours {ours:?} theirs {theirs:?} reports {got} authors with news, definition gives {want}");
+                let mut m = AuthorHeads { heads: ours.clone() };
+                m.merge(&b);
+                let mut wantm = ours.clone();
+                for (author, t) in theirs { let e = wantm.entry(*author).or_insert(*t); if *t > *e { *e = *t; } }
+                assert_eq!(m.heads, wantm, "WITNESS merge of {theirs:?} into {ours:?}");
             }
         }
     }
